@@ -180,6 +180,11 @@ COMP = {
     # component does not hold
     "or-error": ("~ logic-mode: OR ~ ", '$SYM[*][ gt(line_number(), @t1) equals(add(#0, 0), 100) ]'),
     "nocontrib-last": ("", '$SYM[*][ gt(line_number(), @t1) @p1.nocontrib == 1 -> push("s", line_number()) last.nocontrib() -> push("l", line_number()) ]'),
+    # the same votes asked for through enclosing boolean functions: a component nested in not()/or()/and() is evaluated once per
+    # line, whatever the number of times the enclosing function reads it (counting functions keep state)
+    "nested-bool": ("", '$SYM[*][ or(gt(line_number(), @t1), no()) not(not(@p1)) and(yes(), gt(@t2, line_number())) ]'),
+    "nested-counts": ("", '$SYM[*][ not(not(gt(count_scans(), @t1))) or(no(), gt(@t2, count_lines())) ]'),
+    "nested-every": ("", '$SYM[*][ and(gt(line_number(), @t1), not(every.e(#0, 2))) ]'),
 }
 
 
@@ -192,7 +197,7 @@ def comp_oracle(tpl, t1, t2, p1, b1, b2):
         if blanks[i]:
             continue
         scans += 1
-        if tpl == "counts":
+        if tpl in ("counts", "nested-counts"):
             # count_scans(): lines offered to the match part so far; count_lines(): 1-based count of data lines
             if scans > t1 and t2 > scans:
                 out.append(i)
@@ -201,7 +206,7 @@ def comp_oracle(tpl, t1, t2, p1, b1, b2):
         l = i < t2
         if tpl == "or-error":
             m = g  # the second component never holds: no cell is 100, and on line 3 it raises
-        elif tpl == "and3":
+        elif tpl in ("and3", "nested-bool"):
             m = g and p1 and l
         elif tpl == "or3":
             m = g or p1 or l
